@@ -389,6 +389,24 @@ func (w *cworld) applyExt(op extOp) {
 		md(cur)["labels"] = op.Data
 		delete(md(cur), "resourceVersion")
 		w.srv.Seed(cur)
+	case "relabel-merge": // the labels named change (nil: go away), the others stay
+		if cur == nil {
+			return
+		}
+		ls, _ := md(cur)["labels"].(map[string]interface{})
+		if ls == nil {
+			ls = map[string]interface{}{}
+		}
+		for k, v := range op.Data {
+			if v == nil {
+				delete(ls, k)
+			} else {
+				ls[k] = v
+			}
+		}
+		md(cur)["labels"] = ls
+		delete(md(cur), "resourceVersion")
+		w.srv.Seed(cur)
 	case "deleting":
 		if cur == nil {
 			return
@@ -443,6 +461,9 @@ func (w *cworld) applyExt(op extOp) {
 				if op.Data != nil {
 					if rs, ok := op.Data["reason"].(string); ok {
 						cond["reason"] = rs
+					}
+					if cs, ok := op.Data["condStatus"].(string); ok {
+						cond["status"] = cs // healthy for a check that names no status
 					}
 				}
 				st := J{"conditions": A{cond}}
